@@ -71,6 +71,10 @@ class RecipeRun:
         self.n_ok_state = 0
         self.excused = set()    # known-finding ids whose trigger matched in this run (run-level excuses)
         self.near_capacity_fill = False
+        self.near_boundary_transfer = False
+        self.had_fill = False
+        self.noise_rel = F(0)   # bake applies fill_to twice: relative noise this can induce downstream (conditioning of later ratios)
+        self.peak = {}          # substance -> largest amount seen in any vessel of the eager reference
         self.panel_before = None
 
     # ------------------------------------------------------------------ plumbing
@@ -451,6 +455,7 @@ class RecipeRun:
         if self.eager_ok:
             try:
                 cur = {n: o for n, o in self.eager.items() if o is not None}
+                self.note_conditioning(c, cur)
                 upd = self.apply_eager(c, cur)
                 if k == 'remove':
                     step['trash'] = self.discarded(c, cur, upd)
@@ -471,6 +476,54 @@ class RecipeRun:
         self.steps.append(step)
         self.snap.append(self.snapshot_models())
 
+    def note_conditioning(self, c, cur):
+        """Before a step is applied eagerly: how sensitive is it to rounding-level differences of its source?
+        (bake applies every fill_to twice, so after a fill_to its state may differ from the eager one by one rounding step
+        per substance; a later ratio q/T turns that into a relative error slack/T, an exact-boundary request into a flip.)"""
+        W = self.W
+        k = c['c']
+        if k == 'fill_to':
+            self.had_fill = True
+            return
+        if k == 'transfer':
+            src, q = c['src'], c['q']
+        elif k == 'create_solution_from':
+            src, q = [c['src']], c['q']
+        else:
+            return
+        o = cur.get(src[0])
+        if o is None:
+            return
+        try:
+            value, unit = M.parse_quantity(q)
+        except Exception:
+            return
+        m = self.model_of(o)
+        if isinstance(m, M.MPlate):
+            cells = self.cells_of(src, cur) or []
+            vessels = [m.well(cell) for cell in cells]
+        else:
+            vessels = [m]
+        worst = F(0)
+        for v in vessels:
+            T = W.model.total(v, unit)
+            if T <= 0:
+                continue
+            slack = 40 * W.slack_total(v, unit) + (40 * W.q_vol() * (len(v.contents) + 1) if unit == 'L' else 0)
+            worst = max(worst, slack / T)
+            if abs(T - value) <= T * F(1, 10 ** 8) + 4 * slack:
+                self.near_boundary_transfer = True
+        if self.had_fill:
+            self.noise_rel += min(worst, F(1))
+
+    def update_peaks(self, models):
+        for mo in models.values():
+            vs = [mo] if isinstance(mo, M.MVessel) else [mo.well(cell) for cell in mo.all_cells()]
+            for v in vs:
+                for n, a in v.contents.items():
+                    if a > self.peak.get(n, F(0)):
+                        self.peak[n] = a
+
     def fill_at_capacity(self, c, upd):
         W = self.W
         m = self.model_of(upd[c['tgt'][0]])
@@ -481,7 +534,13 @@ class RecipeRun:
         return False
 
     def snapshot_models(self):
-        return {n: self.model_of(o) for n, o in self.eager.items() if o is not None}
+        sn = {n: self.model_of(o) for n, o in self.eager.items() if o is not None}
+        self.update_peaks(sn)
+        return sn
+
+    def noise_amt(self, n):
+        """Absolute allowance for amounts of substance n downstream of a doubly applied fill_to."""
+        return self.noise_rel * self.peak.get(n, F(0)) + self.peak.get(n, F(0)) * F(1, 10 ** 13)
 
     def discarded(self, c, cur, upd):
         """Amounts removed by a remove step, from the eager reference (model units), summed over wells."""
@@ -550,7 +609,7 @@ class RecipeRun:
             known = self.known.match_bake_after_failed_bake(self)
         if second and known is None:
             pred = 'unspecified'
-        if pred == 'accept' and self.near_capacity_fill:
+        if pred == 'accept' and (self.near_capacity_fill or (self.near_boundary_transfer and self.had_fill)):
             pred = 'unspecified'
         if self.excused and pred == 'accept':
             pass
@@ -692,10 +751,10 @@ class RecipeRun:
                     return f"{n} present in one only ({float(x) if x is not None else None} vs {float(y) if y is not None else None})"
             # bake applies fill_to twice: the second application may add up to one rounding step of every substance,
             # expressed in solvent amount
-            if abs(x - y) > 4 * W.q_amt(n) + abs(y) * F(1, 10 ** 12) + self.fill_slack(me, n):
+            if abs(x - y) > 4 * W.q_amt(n) + abs(y) * F(1, 10 ** 12) + self.fill_slack(me, n) + self.noise_amt(n):
                 return f"{n}: {float(x):.12g} != {float(y):.12g}"
         va, ve = W.stored_volume(a), W.stored_volume(e)
-        if abs(va - ve) > W.tol_volume(me):
+        if abs(va - ve) > W.tol_volume(me) + sum((self.noise_amt(n) * W.msubs[n].per_amount('L') for n in me.contents), F(0)):
             return f"volume {float(va):.12g} != {float(ve):.12g}"
         return None
 
